@@ -29,7 +29,8 @@ RULE = ('4 model scripts x {unsolved, solved} x extra variables (int, bool, str,
         'symbols_to_dataframe/dataframe_to_symbols over every script of the program catalogue (all strata). '
         'non-trivial = export with at least one data column / symbol list with at least one symbol'
         ' The model export cases again on a class stacking ProgressBar/Alias/Tracer mixins with aliases defined (not asked for).'
-        ' All-NaN and boolean data columns through from_dataframe; exported columns against the values put in (scalar string label included).')
+        ' All-NaN and boolean data columns through from_dataframe; exported columns against the values put in (scalar string label included).'
+        ' Internal names ending in underscores (_flag__, __k__); span types include a stepped range.')
 ASSUMPTIONS = [
     'index compared as list(df.index) == list(span) (tuple labels become a MultiIndex)',
     'from_dataframe is compared on the model variables (NAMES); string/bool extras are not constructor inputs',
@@ -77,6 +78,8 @@ def make_model(i, kind, n, solved):
     m.add_variable('I8', [k - 2 for k in range(n)], dtype=np.int8)
     m.add_variable('U16', [1000 + k for k in range(n)], dtype=np.uint16)
     m.add_variable('_hidden', 7.5, dtype=float)
+    m.add_variable('_flag__', [k % 3 for k in range(n)], dtype=int)      # internal names of other shapes: ending in underscores, all underscores but one letter
+    m.add_variable('__k__', 2.5, dtype=float)
     m.add_variable('_ihid', 4, dtype=int)
     if m.names and not m.names[0].startswith('_'):
         # an internal variable whose name is '_' + the name of a model variable (its storage key differs: '__<name>')
